@@ -768,3 +768,167 @@ def list_comp(eng, st, node):
 
 def comp_with_contract(eng, st, node, gen, d, ordn, cc):
     raise Unsupported("comprehension %s with filter/contract: not yet supported" % ordn)
+
+
+# ---------------------------------------------------------------- numpy
+def shape_arg(eng, st, v):
+    """shape given as int | tuple | list literal | arr.shape tuple"""
+    if v.k == 'int':
+        return [v.t]
+    if isinstance(v.k, tuple) and v.k[0] in ('tuple', 'pylist'):
+        return [to_int(x) for x in v.py]
+    if isinstance(v.k, tuple) and v.k[0] == 'list' and v.k[1] == 'int':
+        n = z3.simplify(eng.list_len(st, v))
+        if z3.is_int_value(n):
+            return [z3.Select(eng.list_arr(st, v), i) for i in range(n.as_long())]
+    raise Unsupported("shape argument %r" % (v.k,))
+
+
+def _filled(eng, st, args, kw, node, value):
+    shp = kw.get('shape', args[0] if args else None)
+    sh = shape_arg(eng, st, shp)
+    dt = kw.get('dtype')
+    ek = 'real'
+    if dt is not None and dt.k == 'str' and 'int' in dt.py:
+        ek = 'int'
+    for s_ in sh:
+        if not st.spec:
+            eng.oblige(st, "noexc:negative-dimension@L%d" % node.lineno, 'noexc', s_ >= 0, node)
+            st.assume(s_ >= 0)
+    val = z3.RealVal(value) if ek == 'real' else z3.IntVal(value)
+    if len(sh) == 1:
+        return eng.mk_arr(st, 1, ek, sh, z3.K(I, val))
+    if len(sh) == 2:
+        i, j = z3.Int(fresh_name('i')), z3.Int(fresh_name('j'))
+        return eng.mk_arr(st, 2, ek, sh, lam([i, j], val))
+    raise Unsupported("array rank %d" % len(sh))
+
+
+@model('numpy.zeros')
+def np_zeros(eng, st, args, kw, node):
+    used(eng, "np.zeros/np.ones: fresh float64 (or integer dtype) array of the given shape filled with 0/1")
+    return _filled(eng, st, args, kw, node, 0)
+
+
+@model('numpy.ones')
+def np_ones(eng, st, args, kw, node):
+    used(eng, "np.zeros/np.ones: fresh float64 (or integer dtype) array of the given shape filled with 0/1")
+    return _filled(eng, st, args, kw, node, 1)
+
+
+@model('numpy.sqrt')
+def np_sqrt(eng, st, args, kw, node):
+    v = args[0]
+    used(eng, "np.sqrt/math.sqrt(x) for x >= 0 is the non-negative real s with s*s == x (float rounding ignored)")
+    if isinstance(v.k, tuple) and v.k[0] == 'arr':
+        f = eng.uf('sqrt', R, R)
+        _sqrt_axiom(eng, st, f)
+        return arr_map(eng, st, [v], lambda xs: f(xs[0]), 'real')
+    x = to_real(v)
+    if not st.spec:
+        eng.oblige(st, "noexc:sqrt-of-negative@L%d" % node.lineno, 'noexc', x >= 0, node)
+        st.assume(x >= 0)
+    s_ = z3.Real(fresh_name('sqrt'))
+    st.assume(z3.And(s_ >= 0, s_ * s_ == x))
+    return vreal(s_)
+
+
+MODELS['math.sqrt'] = np_sqrt
+
+
+def _sqrt_axiom(eng, st, f):
+    if 'axioms:sqrt' not in st.ghost:
+        st.ghost['axioms:sqrt'] = True
+        x = z3.Real('sqrt_x')
+        st.pc.append(z3.ForAll([x], z3.Implies(x >= 0, z3.And(f(x) >= 0, f(x) * f(x) == x)), patterns=[f(x)]))
+
+
+@model('numpy.square')
+def np_square(eng, st, args, kw, node):
+    v = args[0]
+    if isinstance(v.k, tuple) and v.k[0] == 'arr':
+        return arr_map(eng, st, [v], lambda xs: xs[0] * xs[0], 'real' if v.k[2] == 'real' else 'int')
+    x = to_real(v)
+    return vreal(x * x)
+
+
+@model('numpy.copy')
+def np_copy(eng, st, args, kw, node):
+    v = args[0]
+    used(eng, "np.copy(a): fresh array with the same shape and contents (np.copy(None) is a 0-d object array)")
+    if v.k == 'none':
+        return Val(('opaque', 'none-array'), eng.new_ref(st))
+    if isinstance(v.k, tuple) and v.k[0] == 'arr':
+        r = eng.mk_arr(st, v.k[1], v.k[2], eng.arr_shape(st, v), eng.arr_data(st, v))
+        # np.copy of a null (None-valued) field yields an object that is not None; keep the reference non-null
+        return r
+    raise Unsupported("np.copy of %r" % (v.k,))
+
+
+@model('numpy.diag')
+def np_diag(eng, st, args, kw, node):
+    v = args[0]
+    if not (isinstance(v.k, tuple) and v.k[0] == 'arr'):
+        raise Unsupported("np.diag of %r" % (v.k,))
+    used(eng, "np.diag(1-D) builds the diagonal matrix; np.diag(2-D)/ndarray.diagonal() extract the main diagonal")
+    d = eng.arr_data(st, v)
+    sh = eng.arr_shape(st, v)
+    i, j = z3.Int(fresh_name('i')), z3.Int(fresh_name('j'))
+    if v.k[1] == 1:
+        zero = zero_of(v.k[2])
+        return eng.mk_arr(st, 2, v.k[2], [sh[0], sh[0]], lam([i, j], z3.If(i == j, z3.Select(d, i), zero)))
+    n = z3.If(sh[0] < sh[1], sh[0], sh[1])
+    return eng.mk_arr(st, 1, v.k[2], [n], lam([i], z3.Select(d, i, i)))
+
+
+@method('arr', 'diagonal')
+def arr_diagonal(eng, st, base, args, kw, node):
+    if base.k[1] != 2 or args or kw:
+        raise Unsupported("diagonal() form")
+    return np_diag(eng, st, [base], {}, node)
+
+
+@method('arr', 'copy')
+def arr_copy(eng, st, base, args, kw, node):
+    return np_copy(eng, st, [base], {}, node)
+
+
+@model('numpy.transpose')
+def np_transpose(eng, st, args, kw, node):
+    return transpose(eng, st, args[0])
+
+
+@model('numpy.triu_indices')
+def np_triu_indices(eng, st, args, kw, node):
+    """ASSUMED: np.triu_indices(n) = (rows, cols), the row-major enumeration of {(r,c): 0<=r<=c<n}.
+    Index arrays are modelled as integer lists (they are only ever used as fancy indices)."""
+    used(eng, "np.triu_indices(n) enumerates the upper triangle {(r,c): r<=c<n} in row-major order "
+              "(rows[q], cols[q] with q = r*n - r(r+1)/2 + c); index arrays modelled as integer lists")
+    n = to_int(args[0])
+    if len(args) > 1 or kw:
+        raise Unsupported("triu_indices with k/m")
+    total = z3.Int(fresh_name('tri_total'))
+    st.assume(z3.And(2 * total == n * (n + 1), total >= 0))
+    ra = z3.Const(fresh_name('tri_rows'), z3.ArraySort(I, I))
+    ca = z3.Const(fresh_name('tri_cols'), z3.ArraySort(I, I))
+    rows = eng.mk_list(st, 'int', total, ra)
+    cols = eng.mk_list(st, 'int', total, ca)
+    from . import spec as S
+    from .calls import call_specfn
+    r, c, q = z3.Int(fresh_name('r')), z3.Int(fresh_name('c')), z3.Int(fresh_name('q'))
+    rank = lambda rr, cc: call_specfn(eng, S.SPECFNS['tri_rank'], [vint(rr), vint(cc), vint(n)], st).t
+    st.assume(z3.ForAll([r, c], z3.Implies(z3.And(0 <= r, r <= c, c < n),
+                                           z3.And(z3.Select(ra, rank(r, c)) == r, z3.Select(ca, rank(r, c)) == c,
+                                                  0 <= rank(r, c), rank(r, c) < total)),
+                        patterns=[rank(r, c)]))
+    st.assume(z3.ForAll([q], z3.Implies(z3.And(0 <= q, q < total),
+                                        z3.And(0 <= z3.Select(ra, q), z3.Select(ra, q) <= z3.Select(ca, q),
+                                               z3.Select(ca, q) < n,
+                                               rank(z3.Select(ra, q), z3.Select(ca, q)) == q)),
+                        patterns=[z3.Select(ra, q), z3.Select(ca, q)]))
+    return vtuple([rows, cols])
+
+
+@model('numpy.vstack')
+def np_vstack(eng, st, args, kw, node):
+    raise Unsupported("np.vstack needs the stacking contract (handled by a dedicated model)")
